@@ -3,16 +3,17 @@ from vlib import core, e1, oracles, spaces
 
 D1CORE = ['a', ' ', ',', '(', ')', '[', ']', 'case', 'end', 'if', 'end if', 'for', 'end loop',
           'begin', 'as', '::', '--c\n', '/*c*/', '=', '.', 'where', ';']
+NEST = ['(', ')', 'case', 'end', 'begin', 'a[', ']', 'for', 'end loop']
 BR = ['(', ')', '[', ']', 'case', 'end', 'if', 'end if', 'for', 'end loop', 'begin', 'a', 'where']
 
 
 def _spaces(tier):
     if tier == 'quick':
         return [('D1core<=4 raw', D1CORE, 4, ''), ('D1core<=4 blank', D1CORE, 4, ' '),
-                ('BR<=5 blank', BR, 5, ' '), ('D1<=3 raw', spaces.D['D1'], 3, ''),
-                ('U<=3 raw', spaces.U, 3, '')]
-    return [('D1core<=5 raw', D1CORE, 5, ''), ('D1core<=5 blank', D1CORE, 5, ' '),
-            ('BR<=6 blank', BR, 6, ' '), ('D1<=4 raw', spaces.D['D1'], 4, ''),
+                ('BR<=5 blank', BR, 5, ' '), ('BR<=5 raw', BR, 5, ''), ('D1<=3 raw', spaces.D['D1'], 3, ''),
+                ('NEST<=6 blank', NEST, 6, ' ')]
+    return [('NEST<=7 blank', NEST, 7, ' '), ('D1core<=5 raw', D1CORE, 5, ''), ('D1core<=5 blank', D1CORE, 5, ' '),
+            ('BR<=6 blank', BR, 6, ' '), ('BR<=6 raw', BR, 6, ''), ('D1<=4 raw', spaces.D['D1'], 4, ''),
             ('U<=3 raw', spaces.U, 3, ''), ('U<=3 blank', spaces.U, 3, ' '),
             ('D6<=4 blank', spaces.D['D6'], 4, ' ')]
 
